@@ -83,7 +83,7 @@ def run(ctx: Ctx) -> None:
 
             def is_sink(g, call, pos, kw):
                 d = prog.dotted(g, call.func) or ""
-                if d in sigflow.SINK_FUNCS:
+                if d in sigflow.SINK_FUNCS or d in sigflow._digest_names(ctx):
                     return f"{d.split('.')[-1]} at {g.loc(call)}"
                 return None
 
@@ -284,7 +284,7 @@ def run(ctx: Ctx) -> None:
     rep.rule("C03.R8", "`Path.absolute()` / `os.path.abspath` / `.resolve()` on a store path given by the user is reached only under the outcome `is_absolute()` "
                        "(a relative path must be refused, not completed with the working directory: it is hashed into the signatures of its readers)")
     n8 = 0
-    pu = prog.classes.get("dds.structures_utils.DDSPathUtils")
+    pu = prog.cls("dds.structures_utils.DDSPathUtils")
     if pu is None:
         raise AnchorError("dds.structures_utils.DDSPathUtils not found")
     for m_ in pu.methods.values():
@@ -310,15 +310,19 @@ def run(ctx: Ctx) -> None:
                        "under an isinstance test of x that names types with a deterministic text (dates, paths): the text of a set / frozenset / arbitrary "
                        "object depends on the hash seed or on addresses")
     from .c05 import hasher as _hasher5, family as _family5, fam_call as _fam_call5
+    from .roles import is_digest_call as _is_dc6
     _hasher5(ctx)
     n6 = 0
     for g_ in _family5(ctx):
         fl6 = flow_of(prog, g_)
         gcfg = cfg_of(g_)
         for c in g_.own_nodes():
-            if not (isinstance(c, ast.Call) and c.args and (_fam_call5(ctx, g_, c) is not None or (isinstance(c.func, ast.Name) and c.func.id.startswith("_algo")))):
+            if not (isinstance(c, ast.Call) and c.args and (_fam_call5(ctx, g_, c) is not None or _is_dc6(ctx, g_, c))):
                 continue
-            a0 = c.args[0]
+            from .c05 import hashed_arg as _hashed_arg6
+            a0 = _hashed_arg6(ctx, g_, c) if _fam_call5(ctx, g_, c) is not None else c.args[0]
+            if a0 is None:
+                continue
             texts = []
             if isinstance(a0, ast.Call) and isinstance(a0.func, ast.Name) and a0.func.id in ("str", "repr") and a0.args:
                 texts.append((a0, a0))
@@ -421,7 +425,7 @@ def store_paths_lexical(ctx: Ctx, rule: str) -> int:
     `expanduser`, `samefile`, `readlink`): what they return depends on the links and directories that exist where the process runs, and
     `resolve()` folds '..' segments away before the store can refuse them"""
     rep = ctx.report
-    pu = ctx.prog.classes.get("dds.structures_utils.DDSPathUtils")
+    pu = ctx.prog.cls("dds.structures_utils.DDSPathUtils")
     if pu is None:
         raise AnchorError("dds.structures_utils.DDSPathUtils not found")
     n = 0
@@ -443,7 +447,7 @@ def global_cache_rule(ctx: Ctx, rule: str) -> None:
     rep = ctx.report
     prog = ctx.prog
     types = ctx.types
-    gc = prog.classes.get("dds._global_ctx.GlobalContext")
+    gc = prog.cls("dds._global_ctx.GlobalContext")
     if gc is None:
         raise AnchorError("dds._global_ctx.GlobalContext not found")
     attrs = []
